@@ -42,6 +42,8 @@ def run(ctx):
     statics = [it for it in f.items.values() if it.get('kind', '').startswith('Static') and (anchors.T_RESULT_SENDER in it.get('ty', '') or anchors.T_ITEM_SENDER in it.get('ty', ''))]
     ctx.add('L1.no-static-holder', 'statics', '', not statics, 'a static holds reply senders')
     leaks = hirq.all_calls(f, lambda c: c in LEAKERS or c.endswith('::forget') and c.startswith('core::mem'))
+    import controls
+    controls.leak_primitives(ctx, lambda c: c in LEAKERS or c.endswith('::forget') and c.startswith('core::mem'))
     ctx.add('L1.no-leak-primitives', 'workspace', leaks[0][1]['sp'][0] if leaks else '', not leaks,
             'mem::forget / ManuallyDrop / leak / into_raw used: %s' % [(p, loc(n)) for p, n, c in leaks][:3])
     it = f.items.get(C.loop_path)
